@@ -563,8 +563,11 @@ Definition prop_head (b : bctx) : layout := [("pr_type"%string, KU (le_of b) 4);
 Definition prop_data_len (b : bctx) (ty datasz : Z) : Z :=
   match rfind tbl_ENUM_NOTE_GNU_PROPERTY_TYPE ty with
   | Some nm =>
+      (* classify_pr_data: (name*, pr_datasz, 0) selects the 4-byte word only when pr_datasz = 4,
+         else the default Field(pr_datasz)  <- repair 0460299; before, the key was (name*, 4, 0):
+         a word whatever pr_datasz said *)
       if String.prefix "GNU_PROPERTY_X86_" nm || String.prefix "GNU_PROPERTY_AARCH64_" nm
-         || String.prefix "GNU_PROPERTY_RISCV_" nm then 4
+         || String.prefix "GNU_PROPERTY_RISCV_" nm then (if leg_of b then 4 else datasz)
       else if String.eqb nm "GNU_PROPERTY_STACK_SIZE" && (datasz =? 4) && negb (is64_of b) then 4
       else if String.eqb nm "GNU_PROPERTY_STACK_SIZE" && (datasz =? 8) && is64_of b then 8
       else datasz
